@@ -1,8 +1,10 @@
 (* Lemmas for C15. *)
+From Coq Require Import Lia.
 From Delb.Base Require Import PyStr PyStrFacts.
 From Delb.Tree Require Import ATree ITree.
-From Delb.XPath Require Import Ast Nav Eval FetchCreate.
+From Delb.XPath Require Import Ast Nav Eval Ref Subset EvalRef LocPath LocPathFacts FetchCreate.
 
+(* ================================================================ the top-level branches *)
 Lemma foc_not_accepted vis root me mc e ctx :
   locatable e = false -> foc vis root me mc e ctx = FocFault root (FRejected ValueError).
 Proof. intro H. unfold foc. rewrite H. reflexivity. Qed.
@@ -22,7 +24,6 @@ Lemma foc_eval_fault vis root me mc e ctx f :
   foc vis root me mc e ctx = FocFault root f.
 Proof. intros H E. unfold foc. rewrite H, E. reflexivity. Qed.
 
-(* accepted expressions have the documented shape: one path, child axis and name tests only *)
 Lemma locatable_shape e : locatable e = true ->
   exists ab ss, e = [LocationPath ab ss] /\
     Forall (fun s => exists p l ps, s = LocationStep AxChild (NameMatchTest p l) ps /\ forallb loc_expr ps = true) ss.
@@ -32,7 +33,6 @@ Proof.
   destruct s as [a t ps]. destruct a; try discriminate. destruct t; try discriminate. eauto.
 Qed.
 
-(* a locatable predicate always has derived attributes (no InvalidCodePath on accepted expressions) *)
 Lemma loc_expr_derived e : loc_expr e = true -> exists ds, derived_expr e = Some ds.
 Proof.
   induction e as [v|p l|p l|o l r IHl IHr|name args _] using expr_ind'; cbn; try discriminate.
@@ -45,4 +45,674 @@ Lemma loc_preds_derived ps : forallb loc_expr ps = true -> exists ds, derived_pr
 Proof.
   induction ps as [|p ps IH]; cbn; [eauto|]. intro H. apply andb_prop in H as [H1 H2].
   destruct (loc_expr_derived p H1) as (a & ->). destruct (IH H2) as (b & ->). eauto.
+Qed.
+
+(* ================================================================ evaluation of an accepted step = a filter over the children *)
+(* the domain of the creation theorems, per step: the documented shape, every prefix declared and not empty *)
+Definition pfx_wf (p : option str) : bool := match p with Some [] => false | _ => true end.
+Fixpoint attr_pfx_wf (e : expr) : bool :=
+  match e with
+  | AttributeValue p _ | HasAttribute p _ => pfx_wf p
+  | BooleanOperator _ l r => attr_pfx_wf l && attr_pfx_wf r
+  | _ => true
+  end.
+Definition key_of (m : nsmap) (d : str * str * str) : str :=
+  let p := fst (fst d) in if null p then [] else opt_default [] (ns_get m p).
+Definition built_attrs (m : nsmap) (ds : list (str * str * str)) : list attr :=
+  fold_left (fun acc d => let '(p, k, v) := d in set_attr (if null p then [] else opt_default [] (ns_get m p)) k v acc) ds [].
+(* non-contradictory: every required attribute value is still there after all of them have been set *)
+Definition consistent (m : nsmap) (ds : list (str * str * str)) : bool :=
+  forallb (fun d => match get_attr (key_of m d) (snd (fst d)) (built_attrs m ds) with
+                    | Some v => str_eqb v (snd d) | None => false end) ds.
+Definition step_good (m : nsmap) (s : step) : bool :=
+  match s with
+  | LocationStep AxChild (NameMatchTest p l) ps =>
+      forallb loc_expr ps && pfx_ok m p && pfx_wf p && forallb (bound m) ps && forallb attr_pfx_wf ps
+      && match derived_preds ps with Some ds => consistent m ds | None => false end
+  | _ => false
+  end.
+
+Definition name_ok (m : nsmap) (p : option str) (l : str) (k : itree) : bool :=
+  match ipayload k with
+  | PTag ns name _ => str_eqb ns (opt_default [] (ns_get m (opt_default [] p))) && str_eqb name l
+  | _ => false
+  end.
+Fixpoint pred_b (m : nsmap) (e : expr) (pl : payload) : bool :=
+  match e with
+  | BooleanOperator OpAnd l r => pred_b m l pl && pred_b m r pl
+  | BooleanOperator OpEq (AttributeValue p a) (AnyValue (VStr v)) => str_eqb (opt_default [] (delb_attr pl (attr_ns m p) a)) v
+  | BooleanOperator OpEq (AnyValue (VStr v)) (AttributeValue p a) => str_eqb v (opt_default [] (delb_attr pl (attr_ns m p) a))
+  | _ => false
+  end.
+Definition smatch (m : nsmap) (p : option str) (l : str) (ps : list expr) (k : itree) : bool :=
+  name_ok m p l k && forallb (fun e => pred_b m e (ipayload k)) ps.
+
+Lemma pred_value m e : loc_expr e = true -> bound m e = true ->
+  forall c pos size, is_tagnode c = true -> d_expr m e c pos size = Ok (PBool (pred_b m e (ipayload (snd c)))).
+Proof.
+  induction e as [v|p l|p l|o l r IHl IHr|name args _] using expr_ind'; cbn [loc_expr]; try discriminate.
+  intros Hl Hb c pos size Ht. destruct o; try discriminate.
+  - (* = *)
+    destruct l as [[s|n]|p a|p a|? ? ?|? ?]; try discriminate;
+      destruct r as [[s'|n']|p' a'|p' a'|? ? ?|? ?]; try discriminate; cbn [bound] in Hb.
+    + rewrite andb_true_l in Hb. rewrite d_expr_binop. cbn [d_expr]. rewrite (unknown_prefix_ok _ _ Hb), Ht. reflexivity.
+    + rewrite andb_true_r in Hb. rewrite d_expr_binop. cbn [d_expr]. rewrite (unknown_prefix_ok _ _ Hb), Ht. reflexivity.
+  - (* and *)
+    apply andb_prop in Hl as [H1 H2]. cbn [bound] in Hb. apply andb_prop in Hb as [B1 B2].
+    rewrite d_expr_binop, (IHl H1 B1 c pos size Ht), (IHr H2 B2 c pos size Ht). reflexivity.
+Qed.
+
+Lemma filter_pred_is_filter m p size (f : nd -> bool) : forall cs pos,
+  (forall c pos', In c cs -> d_expr m p c pos' size = Ok (PBool (f c))) ->
+  filter_pred m p size pos cs = Ok (filter f cs).
+Proof.
+  induction cs as [|c cs IH]; intros pos H; [reflexivity|].
+  cbn [filter_pred filter]. rewrite (H c pos (or_introl eq_refl)). cbn [bind].
+  rewrite IH by (intros; apply H; right; assumption). cbn [bind keep_py truthy]. reflexivity.
+Qed.
+Lemma filter_filter {A} (f g : A -> bool) l : filter g (filter f l) = filter (fun x => f x && g x) l.
+Proof.
+  induction l as [|x l IH]; [reflexivity|]. cbn. destruct (f x); cbn; [destruct (g x); rewrite IH; reflexivity|exact IH].
+Qed.
+Lemma filter_ext_in {A} (f g : A -> bool) l : (forall x, In x l -> f x = g x) -> filter f l = filter g l.
+Proof.
+  induction l as [|x l IH]; intro H; [reflexivity|]. cbn. rewrite (H x (or_introl eq_refl)).
+  rewrite IH by (intros; apply H; right; assumption). reflexivity.
+Qed.
+Lemma apply_preds_is_filter m (g : expr -> nd -> bool) : forall ps cs,
+  (forall p c pos size, In p ps -> In c cs -> d_expr m p c pos size = Ok (PBool (g p c))) ->
+  apply_preds m ps cs = Ok (filter (fun c => forallb (fun p => g p c) ps) cs).
+Proof.
+  induction ps as [|p ps IH]; intros cs H; cbn [apply_preds forallb].
+  - rewrite filter_all_true; [reflexivity|auto].
+  - rewrite (filter_pred_is_filter m p _ (g p)) by (intros; apply H; [left; reflexivity|assumption]). cbn [bind].
+    rewrite IH.
+    + rewrite filter_filter. reflexivity.
+    + intros q c pos size Hq Hc. apply H; [right; exact Hq|]. apply filter_In in Hc. tauto.
+Qed.
+
+Lemma child_is_tagnode n c : In c (children n) -> is_tagnode c = is_tag_t (snd c).
+Proof.
+  intro H. pose proof (children_nonnil n c H) as Hn. unfold is_tagnode, is_doc, is_tag_t. destruct (fst c); [congruence|reflexivity].
+Qed.
+
+(* LocationStep._evaluate of an accepted step: the children that match name and attribute values; no fault *)
+Lemma good_step_eval D m p l ps n :
+  step_good m (LocationStep AxChild (NameMatchTest p l) ps) = true ->
+  d_step1 D m (LocationStep AxChild (NameMatchTest p l) ps) n = Ok (filter (fun c => smatch m p l ps (snd c)) (children n)).
+Proof.
+  unfold step_good. intro G. repeat (apply andb_prop in G as [G ?]).
+  unfold d_step1. cbn [d_axis].
+  assert (T : filter_test m (NameMatchTest p l) (children n) = Ok (filter (fun c => name_ok m p l (snd c)) (children n))).
+  { generalize (children_nonnil n). induction (children n) as [|c cs IH]; intro Hn; [reflexivity|].
+    cbn [filter_test filter]. rewrite IH by (intros; apply Hn; right; assumption). cbn [d_test].
+    rewrite (unknown_prefix_ok _ _ H3).
+    assert (E : is_tagnode c = is_tag_t (snd c)).
+    { unfold is_tagnode, is_doc, is_tag_t. specialize (Hn c (or_introl eq_refl)). destruct (fst c); [congruence|reflexivity]. }
+    rewrite E. unfold name_ok, is_tag_t. destruct c as [q [i pl kids]]. cbn [snd ipayload].
+    destruct pl; cbn; try reflexivity.
+    destruct p as [q'|]; cbn; match goal with |- context [str_eqb ?a ?b && str_eqb ?c ?d] => destruct (str_eqb a b && str_eqb c d) end; reflexivity. }
+  rewrite T. cbn [bind].
+  rewrite (apply_preds_is_filter m (fun e c => pred_b m e (ipayload (snd c)))).
+  - rewrite filter_filter. reflexivity.
+  - intros e c pos size He Hc. apply filter_In in Hc as [Hc Hn].
+    rewrite forallb_forall in G, H1. apply pred_value; auto.
+    rewrite (child_is_tagnode n c Hc). unfold name_ok in Hn. unfold is_tag_t. destruct (ipayload (snd c)); try discriminate. reflexivity.
+Qed.
+
+(* ================================================================ de-duplication does nothing on children *)
+Lemma dedup_aux_id : forall l seen, NoDup (map fst l) -> (forall x, In x l -> ~ In (fst x) seen) -> dedup_aux seen l = l.
+Proof.
+  induction l as [|x l IH]; intros seen N H; [reflexivity|]. cbn [dedup_aux].
+  destruct (path_mem (fst x) seen) eqn:E.
+  - apply path_mem_In in E. exfalso. apply (H x (or_introl eq_refl)). exact E.
+  - f_equal. cbn in N. inversion N; subst. apply IH; [assumption|].
+    intros y Hy [Hs|Hs].
+    + apply H2. rewrite Hs. apply in_map. exact Hy.
+    + apply (H y (or_intror Hy)). exact Hs.
+Qed.
+Lemma dedup_id l : NoDup (map fst l) -> dedup l = l.
+Proof. intro N. apply dedup_aux_id; [exact N|]. intros x _ []. Qed.
+
+Lemma number_from_ge {A} (l : list A) : forall i j x, In (j, x) (number_from i l) -> i <= j.
+Proof.
+  induction l as [|y l IH]; intros i j x H; cbn in H; [contradiction|].
+  destruct H as [H|H]; [inversion H; lia|]. apply IH in H. lia.
+Qed.
+Lemma number_from_NoDup {A} (l : list A) : forall i, NoDup (map fst (number_from i l)).
+Proof.
+  induction l as [|y l IH]; intro i; cbn; constructor; [|apply IH].
+  intro H. apply in_map_iff in H as ([j x] & Hj & Hin). cbn in Hj. subst j. apply number_from_ge in Hin. lia.
+Qed.
+Lemma NoDup_map_inj {A B} (f : A -> B) l : (forall a b, f a = f b -> a = b) -> NoDup l -> NoDup (map f l).
+Proof.
+  intros Hf N. induction N as [|x l Hx N IH]; cbn; constructor; [|exact IH].
+  intro H. apply in_map_iff in H as (y & Hy & Hin). apply Hf in Hy. subst. contradiction.
+Qed.
+Lemma children_NoDup n : NoDup (map fst (children n)).
+Proof.
+  assert (E : map fst (children n) = map (fun i => fst n ++ [i]) (map fst (number_from 0 (tkids (snd n))))).
+  { unfold children, children_rel. rewrite !map_map. apply map_ext. intro a. reflexivity. }
+  rewrite E. apply NoDup_map_inj; [|apply number_from_NoDup].
+  intros a b H. apply app_inv_head in H. inversion H. reflexivity.
+Qed.
+Lemma NoDup_filter_fst (f : nd -> bool) l : NoDup (map fst l) -> NoDup (map fst (filter f l)).
+Proof.
+  induction l as [|x l IH]; cbn; intro N; [constructor|]. inversion N; subst.
+  destruct (f x); cbn; [constructor; [|auto]|auto].
+  intro H. apply H1. apply in_map_iff in H as (y & Hy & Hin). apply filter_In in Hin as [Hin _]. rewrite <- Hy. apply in_map. exact Hin.
+Qed.
+
+(* LocationStep.evaluate of an accepted step on ONE node *)
+Lemma good_step_single D m p l ps n :
+  step_good m (LocationStep AxChild (NameMatchTest p l) ps) = true ->
+  d_step D m (LocationStep AxChild (NameMatchTest p l) ps) ([n], None) =
+  (filter (fun c => smatch m p l ps (snd c)) (children n), None).
+Proof.
+  intro G. unfold d_step. cbn [fst snd collect]. rewrite (good_step_eval D m p l ps n G). rewrite app_nil_r.
+  rewrite dedup_id; [reflexivity|]. apply NoDup_filter_fst. apply children_NoDup.
+Qed.
+
+(* the candidates by index *)
+Definition sel (f : itree -> bool) (i0 : nat) (kids : list itree) : list (nat * itree) :=
+  filter (fun ik => f (snd ik)) (number_from i0 kids).
+Lemma children_filter pos t0 (f : itree -> bool) :
+  filter (fun c => f (snd c)) (children (pos, t0)) = map (fun ik => (pos ++ [fst ik], snd ik)) (sel f 0 (tkids t0)).
+Proof.
+  unfold children, children_rel, sel. cbn [fst snd]. rewrite map_map. cbn.
+  induction (number_from 0 (tkids t0)) as [|ik l IH]; [reflexivity|]. cbn. destruct (f (snd ik)); cbn; rewrite IH; reflexivity.
+Qed.
+
+(* ================================================================ candidates after an update / an insertion *)
+Lemma sel_update (f : itree -> bool) : forall kids i0 j k k',
+  sel f i0 kids = [(j, k)] -> f k' = true ->
+  exists i, j = i0 + i /\ nth_error kids i = Some k /\ sel f i0 (update_nth (fun _ => k') i kids) = [(j, k')].
+Proof.
+  unfold sel. induction kids as [|y r IH]; intros i0 j k k' H Hk; cbn in H; [discriminate|].
+  destruct (f y) eqn:Fy.
+  - inversion H; subst. exists 0. split; [lia|]. split; [reflexivity|]. cbn. rewrite Hk. rewrite H3. reflexivity.
+  - destruct (IH (S i0) j k k' H Hk) as (i & Hj & Hn & Hs). exists (S i). split; [lia|]. split; [exact Hn|].
+    cbn. rewrite Fy. exact Hs.
+Qed.
+Lemma sel_nil (f : itree -> bool) : forall kids i0, (forall k, In k kids -> f k = false) -> sel f i0 kids = [].
+Proof.
+  unfold sel. induction kids as [|y r IH]; intros i0 H; [reflexivity|]. cbn. rewrite (H y (or_introl eq_refl)).
+  apply IH. intros; apply H; right; assumption.
+Qed.
+Lemma sel_nil_inv (f : itree -> bool) : forall kids i0, sel f i0 kids = [] -> forall k, In k kids -> f k = false.
+Proof.
+  unfold sel. induction kids as [|y r IH]; intros i0 H k Hk; [contradiction|]. cbn in H.
+  destruct (f y) eqn:Fy; [discriminate|]. destruct Hk as [->|Hk]; [exact Fy|]. eapply IH; eauto.
+Qed.
+Lemma sel_app (f : itree -> bool) a b i0 : sel f i0 (a ++ b) = sel f i0 a ++ sel f (i0 + length a) b.
+Proof. unfold sel. rewrite number_from_app, filter_app. reflexivity. Qed.
+Lemma in_firstn' {A} (x : A) : forall n l, In x (firstn n l) -> In x l.
+Proof. induction n as [|n IH]; intros [|y l] H; cbn in *; try contradiction. destruct H; auto. Qed.
+Lemma in_skipn' {A} (x : A) : forall n l, In x (skipn n l) -> In x l.
+Proof. induction n as [|n IH]; intros [|y l] H; cbn in *; auto. Qed.
+Lemma sel_insert (f : itree -> bool) kids idx n' :
+  (forall k, In k kids -> f k = false) -> f n' = true -> idx <= length kids ->
+  sel f 0 (insert_nth idx n' kids) = [(idx, n')].
+Proof.
+  intros H Hn Hl. unfold insert_nth. rewrite sel_app.
+  rewrite (sel_nil f (firstn idx kids)) by (intros k Hk; apply H; eapply in_firstn'; eauto).
+  cbn [app]. unfold sel at 1. cbn [number_from filter snd]. rewrite Hn.
+  fold (sel f (S (0 + length (firstn idx kids))) (skipn idx kids)).
+  rewrite (sel_nil f (skipn idx kids)) by (intros k Hk; apply H; eapply in_skipn'; eauto).
+  rewrite firstn_length, Nat.min_l by exact Hl. reflexivity.
+Qed.
+
+Lemma last_visible_bound vis : forall l i acc j, last_visible vis l i acc = Some j ->
+  acc = Some j \/ (i <= j /\ j < i + length l).
+Proof.
+  induction l as [|x l IH]; intros i acc j H; cbn in H; [left; exact H|].
+  apply IH in H as [H|H]; [|right; cbn; lia].
+  destruct (vis x); [inversion H; subst; right; cbn; lia|left; exact H].
+Qed.
+Lemma insert_index_le vis kids : insert_index vis kids <= length kids.
+Proof.
+  unfold insert_index. destruct (last_visible vis kids 0 None) as [j|] eqn:E; [|lia].
+  apply last_visible_bound in E as [E|E]; [discriminate|lia].
+Qed.
+
+Lemma tkids_set_kid t i k : tkids (set_kid t i k) = update_nth (fun _ => k) i (tkids t).
+Proof.
+  destruct t as [id p kids]. destruct p; cbn; try reflexivity; destruct i; reflexivity.
+Qed.
+Lemma tkids_insert_kid t i k : is_tag_t t = true -> tkids (insert_kid t i k) = insert_nth i k (tkids t).
+Proof. destruct t as [id p kids]. destruct p; cbn; try discriminate. reflexivity. Qed.
+Lemma payload_set_kid t i k : ipayload (set_kid t i k) = ipayload t.
+Proof. destruct t; reflexivity. Qed.
+Lemma payload_insert_kid t i k : ipayload (insert_kid t i k) = ipayload t.
+Proof. destruct t as [id p kids]. destruct p; reflexivity. Qed.
+Lemma smatch_payload m p l ps k k' : ipayload k = ipayload k' -> smatch m p l ps k = smatch m p l ps k'.
+Proof. intro E. unfold smatch, name_ok. rewrite E. reflexivity. Qed.
+Lemma smatch_tag m p l ps k : smatch m p l ps k = true -> is_tag_t k = true.
+Proof. unfold smatch, name_ok, is_tag_t. destruct (ipayload k); cbn; try discriminate. reflexivity. Qed.
+
+(* create_in never touches the payload of the node it works on *)
+Lemma create_in_payload vis m ss pos t0 :
+  match create_in vis m ss pos t0 with COk t' _ | CFault t' _ => ipayload t' = ipayload t0 end.
+Proof.
+  destruct ss as [|s r]; [reflexivity|]. cbn [create_in].
+  destruct (d_step t0 m s ([(pos, t0)], None)) as [l o].
+  destruct l as [|x [|y l]]; destruct o as [f|]; try reflexivity.
+  - destruct pos; [reflexivity|]. destruct s as [a t ps]. destruct t; try reflexivity.
+    destruct (derived_preds ps); [|reflexivity]. destruct (negb _); [reflexivity|].
+    destruct (create_in vis m r _ _); apply payload_insert_kid.
+  - destruct (create_in vis m r (fst x) (snd x)); apply payload_set_kid.
+Qed.
+
+(* ================================================================ the new element satisfies the step it was made for *)
+Lemma get_attr_app_some ns k l r v : get_attr ns k l = Some v -> get_attr ns k (l ++ r) = Some v.
+Proof.
+  induction l as [|[[n a] w] l IH]; cbn; [discriminate|]. destruct (str_eqb n ns && str_eqb a k); [auto|exact IH].
+Qed.
+
+Definition readback (m : nsmap) (A : list attr) (d : str * str * str) : Prop :=
+  exists v', get_attr (key_of m d) (snd (fst d)) A = Some v' /\ v' = snd d.
+
+Lemma attr_readback m p a v ns l A inh :
+  pfx_wf p = true -> readback m A (opt_default [] p, a, v) ->
+  opt_default [] (delb_attr (PTag ns l (A ++ inh)) (attr_ns m p) a) = v.
+Proof.
+  intros Hw (v' & Hg & ->). unfold key_of in Hg. cbn [fst snd] in Hg.
+  unfold delb_attr. cbn [payload_attrs]. unfold attr_ns.
+  destruct p as [q|]; cbn [opt_default null] in *.
+  - destruct q as [|c q]; [discriminate Hw|]. cbn [null] in Hg.
+    set (N := opt_default [] (ns_get m (c :: q))) in *.
+    pose proof (get_attr_app_some _ _ _ inh _ Hg) as Hg'. rewrite Hg'. rewrite andb_false_r, orb_false_r.
+    destruct (null N) eqn:En; [|rewrite Hg'; reflexivity].
+    destruct N; [|discriminate]. rewrite Hg'. reflexivity.
+  - cbn [orb]. rewrite (get_attr_app_some _ _ _ inh _ Hg). reflexivity.
+Qed.
+
+Lemma pred_true m ns l A inh e : loc_expr e = true -> attr_pfx_wf e = true ->
+  forall de, derived_expr e = Some de -> (forall d, In d de -> readback m A d) ->
+  pred_b m e (PTag ns l (A ++ inh)) = true.
+Proof.
+  induction e as [v|p a|p a|o x y IHx IHy|name args _] using expr_ind'; cbn [loc_expr]; try discriminate.
+  intros Hl Hw de Hd Hr. destruct o; try discriminate.
+  - destruct x as [[s|n]|p a|p a|? ? ?|? ?]; try discriminate;
+      destruct y as [[s'|n']|p' a'|p' a'|? ? ?|? ?]; try discriminate; cbn in Hd, Hw; inversion Hd; subst; cbn [pred_b].
+    + rewrite (attr_readback m p' a' s ns l A inh); [apply str_eqb_refl|exact Hw|apply Hr; left; reflexivity].
+    + rewrite andb_true_r in Hw.
+      rewrite (attr_readback m p a s' ns l A inh); [apply str_eqb_refl|exact Hw|apply Hr; left; reflexivity].
+  - apply andb_prop in Hl as [L1 L2]. cbn [attr_pfx_wf] in Hw. apply andb_prop in Hw as [W1 W2].
+    cbn [derived_expr] in Hd. destruct (derived_expr x) as [dx|] eqn:Ex; [|discriminate].
+    destruct (derived_expr y) as [dy|] eqn:Ey; [|discriminate]. inversion Hd; subst.
+    cbn [pred_b]. rewrite (IHx L1 W1 dx eq_refl), (IHy L2 W2 dy eq_refl); [reflexivity| |];
+      intros d Hin; apply Hr; apply in_or_app; auto.
+Qed.
+
+Lemma derived_preds_incl ps : forall ds, derived_preds ps = Some ds ->
+  forall e de, In e ps -> derived_expr e = Some de -> incl de ds.
+Proof.
+  induction ps as [|p ps IH]; intros ds H e de He Hd; [contradiction|]. cbn in H.
+  destruct (derived_expr p) as [a|] eqn:Ea; [|discriminate]. destruct (derived_preds ps) as [b|] eqn:Eb; [|discriminate].
+  inversion H; subst. destruct He as [->|He].
+  - rewrite Ea in Hd. inversion Hd; subst. apply incl_appl, incl_refl.
+  - apply incl_appr. eapply IH; eauto.
+Qed.
+
+Lemma consistent_readback m ds : consistent m ds = true -> forall d, In d ds -> readback m (built_attrs m ds) d.
+Proof.
+  unfold consistent. rewrite forallb_forall. intros H d Hd. specialize (H d Hd).
+  destruct (get_attr (key_of m d) (snd (fst d)) (built_attrs m ds)) as [v|] eqn:E; [|discriminate].
+  exists v. split; [exact E|]. apply str_eqb_eq. exact H.
+Qed.
+
+Lemma new_matches m t0 p l ps ds :
+  step_good m (LocationStep AxChild (NameMatchTest p l) ps) = true -> derived_preds ps = Some ds ->
+  smatch m p l ps (new_node m t0 p l ds) = true.
+Proof.
+  unfold step_good. intros G Hd. rewrite Hd in G. repeat (apply andb_prop in G as [G ?]).
+  unfold smatch, name_ok, new_node. cbn [ipayload]. rewrite !str_eqb_refl. cbn [andb].
+  apply forallb_forall. intros e He. rewrite forallb_forall in G, H0.
+  destruct (loc_expr_derived e (G e He)) as (de & Hde).
+  eapply (pred_true m _ l (built_attrs m ds)); [apply G; exact He|apply H0; exact He|exact Hde|].
+  intros d Hin. apply consistent_readback; [assumption|]. eapply derived_preds_incl; eauto.
+Qed.
+
+(* ================================================================ C15_finds: the creation branch *)
+Lemma sel_member_true (f : itree -> bool) i0 kids j k : In (j, k) (sel f i0 kids) -> f k = true.
+Proof. unfold sel. intro H. apply filter_In in H as [_ H]. exact H. Qed.
+
+(* rewriting with an equation about d_step up to conversion (nd / stream are definitions) *)
+Ltac rw_step_in H E :=
+  match type of E with _ = ?rhs =>
+    match type of H with context [d_step ?a ?b ?c ?d] =>
+      replace (d_step a b c d) with rhs in H by (first [exact E | symmetry; exact E]) end end.
+Ltac rw_step E :=
+  match type of E with _ = ?rhs =>
+    match goal with |- context [d_step ?a ?b ?c ?d] =>
+      replace (d_step a b c d) with rhs by (first [exact E | symmetry; exact E]) end end.
+
+Lemma create_finds vis m D : forall ss pos t0 t' p,
+  forallb (step_good m) ss = true -> is_tag_t t0 = true -> create_in vis m ss pos t0 = COk t' p ->
+  exists sub q', fold_left (fun acc s => d_step D m s acc) ss ([(pos, t')], None) = ([(p, sub)], None) /\ p = pos ++ q'.
+Proof.
+  induction ss as [|s r IH]; intros pos t0 t' p G Ht H.
+  - cbn in H. inversion H; subst. exists t', []. rewrite app_nil_r. split; reflexivity.
+  - cbn [forallb] in G. apply andb_prop in G as [Gs Gr].
+    destruct s as [a t ps]. destruct a; try discriminate Gs. destruct t as [pr l| | |]; try discriminate Gs.
+    cbn [create_in] in H. pose proof (good_step_single t0 m pr l ps (pos, t0) Gs) as E0. rewrite children_filter in E0.
+    rw_step_in H E0. clear E0.
+    destruct (sel (smatch m pr l ps) 0 (tkids t0)) as [|[j k] [|? ?]] eqn:ES; cbn [map fst snd] in H; [| |discriminate H].
+    + (* no candidate: a new element *)
+      destruct pos as [|a0 pos']; [discriminate H|].
+      destruct (derived_preds ps) as [ds|] eqn:Ed; [|discriminate H].
+      destruct (negb (prefixes_declared m pr ds)); [discriminate H|].
+      destruct (create_in vis m r ((a0 :: pos') ++ [insert_index vis (tkids t0)]) (new_node m t0 pr l ds)) as [n' p'|n' f] eqn:Ec;
+        [|discriminate H].
+      inversion H; subst; clear H.
+      pose proof (create_in_payload vis m r ((a0 :: pos') ++ [insert_index vis (tkids t0)]) (new_node m t0 pr l ds)) as Hp.
+      rewrite Ec in Hp.
+      destruct (IH _ (new_node m t0 pr l ds) _ _ Gr eq_refl Ec) as (sub & q' & Hf & Hq).
+      exists sub, (insert_index vis (tkids t0) :: q'). split; [|rewrite Hq, <- app_assoc; reflexivity].
+      cbn [fold_left].
+      pose proof (good_step_single D m pr l ps (a0 :: pos', insert_kid t0 (insert_index vis (tkids t0)) n') Gs) as E1.
+      rewrite children_filter, (tkids_insert_kid _ _ _ Ht) in E1.
+      rewrite (sel_insert (smatch m pr l ps) (tkids t0) (insert_index vis (tkids t0)) n') in E1.
+      * cbn [map fst snd] in E1. rw_step E1. exact Hf.
+      * apply (sel_nil_inv _ _ 0). exact ES.
+      * rewrite (smatch_payload m pr l ps n' (new_node m t0 pr l ds) Hp). apply new_matches; assumption.
+      * apply insert_index_le.
+    + (* one candidate: go down *)
+      destruct (create_in vis m r (pos ++ [j]) k) as [k' p'|k' f] eqn:Ec; [|discriminate H].
+      inversion H; subst; clear H. rewrite last_last.
+      assert (Fk : smatch m pr l ps k = true) by (apply (sel_member_true _ 0 (tkids t0) j); rewrite ES; left; reflexivity).
+      pose proof (create_in_payload vis m r (pos ++ [j]) k) as Hp. rewrite Ec in Hp.
+      assert (Fk' : smatch m pr l ps k' = true) by (rewrite (smatch_payload m pr l ps k' k Hp); exact Fk).
+      destruct (sel_update _ _ _ _ _ k' ES Fk') as (i & Hj & Hn & Hs). cbn in Hj. subst j.
+      destruct (IH _ _ _ _ Gr (smatch_tag _ _ _ _ _ Fk) Ec) as (sub & q' & Hf & Hq).
+      exists sub, (i :: q'). split; [|rewrite Hq, <- app_assoc; reflexivity].
+      cbn [fold_left].
+      pose proof (good_step_single D m pr l ps (pos, set_kid t0 i k') Gs) as E1.
+      rewrite children_filter, tkids_set_kid, Hs in E1. cbn [map fst snd] in E1. rw_step E1. exact Hf.
+Qed.
+
+(* ================================================================ from create_in to foc *)
+Lemma nth_error_update_nth {A} (f : A -> A) : forall l i x, nth_error l i = Some x -> nth_error (update_nth f i l) i = Some (f x).
+Proof. induction l as [|y l IH]; intros [|i] x H; cbn in *; try discriminate; [inversion H; reflexivity|auto]. Qed.
+
+Lemma subtree_replace_at : forall q t t0 new, subtree t q = Some t0 -> subtree (replace_at t q new) q = Some new.
+Proof.
+  induction q as [|j q IH]; intros t t0 new H; [reflexivity|]. cbn in H |- *.
+  destruct t as [i p kids]. destruct p; cbn in H |- *; try (destruct j; discriminate H).
+  destruct (nth_error kids j) as [k|] eqn:E; [|discriminate H].
+  rewrite (nth_error_update_nth _ _ _ _ E). eapply IH; eauto.
+Qed.
+
+Definition ctx_nd (root : itree) (ctx : npath) : nd := (ctx, opt_default (docnode root) (subtree (docnode root) ctx)).
+
+(* relative paths *)
+Lemma foc_finds_relative vis root m ss q t0 t' p :
+  forallb (step_good m) ss = true -> subtree root q = Some t0 -> is_tag_t t0 = true ->
+  foc vis root m m [LocationPath false ss] (0 :: q) = FocOk t' p ->
+  exists n, eval (docnode t') m [LocationPath false ss] (ctx_nd t' (0 :: q)) = Ok [n] /\ fst n = p.
+Proof.
+  intros G Hs Ht. unfold foc.
+  destruct (negb (locatable [LocationPath false ss])); [discriminate|].
+  assert (Ec : ctx_nd root (0 :: q) = (0 :: q, t0)) by (unfold ctx_nd; cbn; rewrite Hs; reflexivity).
+  fold (ctx_nd root (0 :: q)).
+  destruct (eval (docnode root) m [LocationPath false ss] (ctx_nd root (0 :: q))) as [[|x [|y l]]|f] eqn:Ev; try discriminate.
+  - (* creation *)
+    rewrite Hs. cbn [opt_default].
+    destruct (create_in vis m ss (0 :: q) t0) as [t0' p'|t0' f] eqn:Ecr; [|discriminate]. intro H. inversion H; subst; clear H.
+    destruct (create_finds vis m (docnode (replace_at root q t0')) ss (0 :: q) t0 t0' p G Ht Ecr) as (sub & q' & Hf & Hq).
+    exists (p, sub). split; [|reflexivity].
+    assert (Ec' : ctx_nd (replace_at root q t0') (0 :: q) = (0 :: q, t0')).
+    { unfold ctx_nd. cbn. rewrite (subtree_replace_at q root t0 t0' Hs). reflexivity. }
+    rewrite Ec'. unfold eval. cbn [d_paths d_path].
+    match goal with |- context [fold_left ?F ss ?I] => replace (fold_left F ss I) with ([(p, sub)], @None fault) by (symmetry; exact Hf) end.
+    cbn [app existsb is_doc fst orb]. rewrite Hq. cbn. reflexivity.
+  - (* fetched *)
+    intro H. inversion H; subst. exists x. split; [exact Ev|reflexivity].
+Qed.
+
+(* absolute paths: the walk starts at the _DocumentNode; with no matching root there is nothing to create *)
+Lemma sel_doc f root : sel f 0 (tkids (docnode root)) = if f root then [(0, root)] else [].
+Proof. unfold sel. cbn. destruct (f root); reflexivity. Qed.
+
+Lemma foc_finds_absolute vis root m s r ctx t' p :
+  forallb (step_good m) (s :: r) = true ->
+  foc vis root m m [LocationPath true (s :: r)] ctx = FocOk t' p ->
+  exists n, eval (docnode t') m [LocationPath true (s :: r)] (ctx_nd t' ctx) = Ok [n] /\ fst n = p.
+Proof.
+  intros G. unfold foc.
+  destruct (negb (locatable [LocationPath true (s :: r)])); [discriminate|].
+  fold (ctx_nd root ctx).
+  destruct (eval (docnode root) m [LocationPath true (s :: r)] (ctx_nd root ctx)) as [[|x [|y l]]|f] eqn:Ev; try discriminate.
+  - cbn [forallb] in G. apply andb_prop in G as [Gs Gr].
+    destruct s as [a t ps]. destruct a; try discriminate Gs. destruct t as [pr l| | |]; try discriminate Gs.
+    cbn [create_in].
+    pose proof (good_step_single (docnode root) m pr l ps ([], docnode root) Gs) as E0.
+    rewrite children_filter, sel_doc in E0.
+    match goal with |- context [d_step ?a ?b ?c ?d] => replace (d_step a b c d) with
+      (map (fun ik : nat * itree => ([] ++ [fst ik], snd ik)) (if smatch m pr l ps root then [(0, root)] else []), @None fault)
+      by (symmetry; exact E0) end.
+    destruct (smatch m pr l ps root) eqn:Fr; cbn [map fst snd app]; [|discriminate].
+    destruct (create_in vis m r [0] root) as [k' p'|k' f] eqn:Ecr; [|discriminate]. intro H. inversion H; subst; clear H.
+    cbn [last set_kid docnode update_nth doc_root tkids].
+    destruct (create_finds vis m (docnode k') r [0] root k' p Gr (smatch_tag _ _ _ _ _ Fr) Ecr) as (sub & q' & Hf & Hq).
+    exists (p, sub). split; [|reflexivity].
+    pose proof (create_in_payload vis m r [0] root) as Hp. rewrite Ecr in Hp.
+    pose proof (good_step_single (docnode k') m pr l ps ([], docnode k') Gs) as E1.
+    rewrite children_filter, sel_doc, (smatch_payload m pr l ps k' root Hp), Fr in E1. cbn [map fst snd app] in E1.
+    unfold eval. cbn [d_paths d_path fold_left].
+    rw_step E1.
+    match goal with |- context [fold_left ?F r ?I] => replace (fold_left F r I) with ([(p, sub)], @None fault) by (symmetry; exact Hf) end.
+    cbn [app existsb is_doc fst orb]. rewrite Hq. cbn. reflexivity.
+  - intro H. inversion H; subst. exists x. split; [exact Ev|reflexivity].
+Qed.
+
+(* idempotence follows from `finds`: the second call is a fetch *)
+Lemma foc_idem vis t' m e ctx n :
+  locatable e = true -> eval (docnode t') m e (ctx_nd t' ctx) = Ok [n] -> foc vis t' m m e ctx = FocOk t' (fst n).
+Proof. intros. apply foc_fetches; assumption. Qed.
+
+(* ================================================================ no fault after a creation; a fault leaves the tree unchanged *)
+Definition declared_pfx (m : nsmap) (p : str) : bool := null p || match ns_get m p with Some _ => true | None => false end.
+Lemma bound_derived m e : loc_expr e = true -> bound m e = true ->
+  forall de, derived_expr e = Some de -> forallb (fun d => declared_pfx m (fst (fst d))) de = true.
+Proof.
+  induction e as [v|p a|p a|o x y IHx IHy|name args _] using expr_ind'; cbn [loc_expr]; try discriminate.
+  intros Hl Hb de Hd. destruct o; try discriminate.
+  - destruct x as [[s|n]|p a|p a|? ? ?|? ?]; try discriminate;
+      destruct y as [[s'|n']|p' a'|p' a'|? ? ?|? ?]; try discriminate; cbn in Hd, Hb; inversion Hd; subst; cbn;
+      rewrite andb_true_r; unfold declared_pfx.
+    + destruct p' as [q|]; cbn in Hb |- *; [|reflexivity]. destruct (ns_get m q); [apply orb_true_r|discriminate].
+    + rewrite andb_true_r in Hb. destruct p as [q|]; cbn in Hb |- *; [|reflexivity]. destruct (ns_get m q); [apply orb_true_r|discriminate].
+  - apply andb_prop in Hl as [L1 L2]. cbn [bound] in Hb. apply andb_prop in Hb as [B1 B2].
+    cbn [derived_expr] in Hd. destruct (derived_expr x) as [dx|] eqn:Ex; [|discriminate].
+    destruct (derived_expr y) as [dy|] eqn:Ey; [|discriminate]. inversion Hd; subst.
+    rewrite forallb_app, (IHx L1 B1 dx eq_refl), (IHy L2 B2 dy eq_refl). reflexivity.
+Qed.
+Lemma bound_derived_preds m ps : forallb loc_expr ps = true -> forallb (bound m) ps = true ->
+  forall ds, derived_preds ps = Some ds -> forallb (fun d => declared_pfx m (fst (fst d))) ds = true.
+Proof.
+  induction ps as [|p ps IH]; cbn; intros L B ds H; [inversion H; reflexivity|].
+  apply andb_prop in L as [L1 L2]. apply andb_prop in B as [B1 B2].
+  destruct (derived_expr p) as [a|] eqn:Ea; [|discriminate]. destruct (derived_preds ps) as [b|] eqn:Eb; [|discriminate].
+  inversion H; subst. rewrite forallb_app, (bound_derived m p L1 B1 a Ea), (IH L2 B2 b eq_refl). reflexivity.
+Qed.
+Lemma step_good_inv m pr l ps : step_good m (LocationStep AxChild (NameMatchTest pr l) ps) = true ->
+  forallb loc_expr ps = true /\ pfx_ok m pr = true /\ pfx_wf pr = true /\ forallb (bound m) ps = true /\
+  forallb attr_pfx_wf ps = true /\ exists ds, derived_preds ps = Some ds /\ consistent m ds = true.
+Proof.
+  unfold step_good. intro G. apply andb_prop in G as [G G6]. apply andb_prop in G as [G G5]. apply andb_prop in G as [G G4].
+  apply andb_prop in G as [G G3]. apply andb_prop in G as [G1 G2]. repeat split; auto.
+  destruct (derived_preds ps) as [ds|]; [eauto|discriminate].
+Qed.
+
+Lemma good_declared m pr l ps ds :
+  step_good m (LocationStep AxChild (NameMatchTest pr l) ps) = true -> derived_preds ps = Some ds ->
+  prefixes_declared m pr ds = true.
+Proof.
+  intros G Hd. destruct (step_good_inv m pr l ps G) as (G1 & G2 & G3 & G4 & G5 & _).
+  unfold prefixes_declared. cbn [forallb]. apply andb_true_intro. split.
+  - unfold pfx_ok in G2. destruct pr as [q|]; cbn; [|reflexivity]. destruct (ns_get m q); [apply orb_true_r|discriminate G2].
+  - rewrite forallb_forall. intros p Hp. apply in_map_iff in Hp as (d & <- & Hin).
+    pose proof (bound_derived_preds m ps G1 G4 ds Hd) as F. rewrite forallb_forall in F. exact (F d Hin).
+Qed.
+
+Lemma good_derived m pr l ps : step_good m (LocationStep AxChild (NameMatchTest pr l) ps) = true ->
+  exists ds, derived_preds ps = Some ds.
+Proof. unfold step_good. intro G. destruct (derived_preds ps); [eauto|]. rewrite !andb_false_r in G. discriminate. Qed.
+
+Lemma tkids_new_node m t0 pr l ds : tkids (new_node m t0 pr l ds) = [].
+Proof. reflexivity. Qed.
+
+(* on a childless element every remaining step creates: no exception is possible any more *)
+Lemma chain_no_fault vis m : forall r pos n, forallb (step_good m) r = true -> tkids n = [] -> pos <> [] ->
+  exists n' p, create_in vis m r pos n = COk n' p.
+Proof.
+  induction r as [|s r IH]; intros pos n G Hk Hp; [cbn; eauto|].
+  cbn [forallb] in G. apply andb_prop in G as [Gs Gr].
+  destruct s as [a t ps]. destruct a; try discriminate Gs. destruct t as [pr l| | |]; try discriminate Gs.
+  cbn [create_in]. pose proof (good_step_single n m pr l ps (pos, n) Gs) as E0. rewrite children_filter, Hk in E0. cbn in E0.
+  rw_step E0. destruct pos as [|a0 pos']; [congruence|].
+  destruct (good_derived m pr l ps Gs) as (ds & Hd). rewrite Hd, (good_declared m pr l ps ds Gs Hd). cbn [negb].
+  destruct (IH ((a0 :: pos') ++ [insert_index vis (tkids n)]) (new_node m n pr l ds) Gr eq_refl) as (n' & p & Hc).
+  { destruct pos'; discriminate. }
+  rewrite Hc. eauto.
+Qed.
+
+Lemma update_nth_same {A} (f : A -> A) : forall l i x, nth_error l i = Some x -> f x = x -> update_nth f i l = l.
+Proof. induction l as [|y l IH]; intros [|i] x H E; cbn in *; try discriminate; [inversion H; subst; rewrite E; reflexivity|f_equal; eauto]. Qed.
+Lemma set_kid_same t i k : nth_error (tkids t) i = Some k -> set_kid t i k = t.
+Proof.
+  destruct t as [id p kids]. destruct p; cbn; try (destruct i; discriminate). intro H.
+  rewrite (update_nth_same (fun _ : itree => k) kids i k H eq_refl). reflexivity.
+Qed.
+
+Lemma create_unchanged vis m : forall ss pos t0 t' f,
+  forallb (step_good m) ss = true -> create_in vis m ss pos t0 = CFault t' f -> t' = t0.
+Proof.
+  induction ss as [|s r IH]; intros pos t0 t' f G H; [discriminate H|].
+  cbn [forallb] in G. apply andb_prop in G as [Gs Gr].
+  destruct s as [a t ps]. destruct a; try discriminate Gs. destruct t as [pr l| | |]; try discriminate Gs.
+  cbn [create_in] in H. pose proof (good_step_single t0 m pr l ps (pos, t0) Gs) as E0. rewrite children_filter in E0.
+  rw_step_in H E0. clear E0.
+  destruct (sel (smatch m pr l ps) 0 (tkids t0)) as [|[j k] [|? ?]] eqn:ES; cbn [map fst snd] in H.
+  - destruct pos as [|a0 pos']; [inversion H; reflexivity|].
+    destruct (derived_preds ps) as [ds|] eqn:Ed; [|inversion H; reflexivity].
+    destruct (negb (prefixes_declared m pr ds)); [inversion H; reflexivity|].
+    destruct (chain_no_fault vis m r ((a0 :: pos') ++ [insert_index vis (tkids t0)]) (new_node m t0 pr l ds) Gr eq_refl) as (n' & p & Hc).
+    { destruct pos'; discriminate. }
+    rewrite Hc in H. discriminate H.
+  - destruct (create_in vis m r (pos ++ [j]) k) as [k' p'|k' f'] eqn:Ec; [discriminate H|]. inversion H; subst; clear H.
+    rewrite (IH _ _ _ _ Gr Ec). rewrite last_last.
+    assert (Fk : smatch m pr l ps k = true) by (apply (sel_member_true _ 0 (tkids t0) j); rewrite ES; left; reflexivity).
+    destruct (sel_update _ _ _ _ _ k ES Fk) as (i & Hj & Hn & _). cbn in Hj. subst j. apply set_kid_same. exact Hn.
+  - inversion H. reflexivity.
+Qed.
+
+(* ================================================================ C15_minimal *)
+(* a chain of new elements: each has no child or exactly one, which is again such a chain *)
+Inductive chain : itree -> Prop :=
+| chain_leaf id a b attrs : chain (INode id (PTag a b attrs) [])
+| chain_one id a b attrs k : chain k -> chain (INode id (PTag a b attrs) [k]).
+(* t' is t, or t with ONE chain inserted as a child of one of its elements; every other node, in place *)
+Inductive grown : itree -> itree -> Prop :=
+| grown_same t : grown t t
+| grown_insert t idx c : is_tag_t t = true -> idx <= length (tkids t) -> chain c -> grown t (insert_kid t idx c)
+| grown_down t i k k' : nth_error (tkids t) i = Some k -> grown k k' -> grown t (set_kid t i k').
+
+Lemma chain_result vis m : forall r pos n n' p, forallb (step_good m) r = true -> tkids n = [] -> is_tag_t n = true -> pos <> [] ->
+  create_in vis m r pos n = COk n' p -> chain n'.
+Proof.
+  induction r as [|s r IH]; intros pos n n' p G Hk Ht Hp H.
+  - cbn in H. inversion H; subst. destruct n' as [id pl kids]. destruct pl; cbn in Ht, Hk; try discriminate. subst. constructor.
+  - cbn [forallb] in G. apply andb_prop in G as [Gs Gr].
+    destruct s as [a t ps]. destruct a; try discriminate Gs. destruct t as [pr l| | |]; try discriminate Gs.
+    cbn [create_in] in H. pose proof (good_step_single n m pr l ps (pos, n) Gs) as E0. rewrite children_filter, Hk in E0. cbn in E0.
+    rw_step_in H E0. destruct pos as [|a0 pos']; [congruence|].
+    destruct (derived_preds ps) as [ds|]; [|discriminate H]. destruct (negb _); [discriminate H|].
+    destruct (create_in vis m r ((a0 :: pos') ++ [insert_index vis (tkids n)]) (new_node m n pr l ds)) as [n2 p2|n2 f] eqn:Ec; [|discriminate H].
+    inversion H; subst; clear H.
+    assert (C2 : chain n2).
+    { apply (IH ((a0 :: pos') ++ [insert_index vis (tkids n)]) (new_node m n pr l ds) n2 p Gr eq_refl eq_refl);
+        [destruct pos'; discriminate|exact Ec]. }
+    destruct n as [id pl kids]. destruct pl; cbn in Ht, Hk; try discriminate. subst kids.
+    cbn. constructor. exact C2.
+Qed.
+
+Lemma create_grown vis m : forall ss pos t0 t' p, forallb (step_good m) ss = true -> is_tag_t t0 = true ->
+  create_in vis m ss pos t0 = COk t' p -> grown t0 t'.
+Proof.
+  induction ss as [|s r IH]; intros pos t0 t' p G Ht H; [cbn in H; inversion H; constructor|].
+  cbn [forallb] in G. apply andb_prop in G as [Gs Gr].
+  destruct s as [a t ps]. destruct a; try discriminate Gs. destruct t as [pr l| | |]; try discriminate Gs.
+  cbn [create_in] in H. pose proof (good_step_single t0 m pr l ps (pos, t0) Gs) as E0. rewrite children_filter in E0.
+  rw_step_in H E0. clear E0.
+  destruct (sel (smatch m pr l ps) 0 (tkids t0)) as [|[j k] [|? ?]] eqn:ES; cbn [map fst snd] in H; [| |discriminate H].
+  - destruct pos as [|a0 pos']; [discriminate H|].
+    destruct (derived_preds ps) as [ds|]; [|discriminate H]. destruct (negb _); [discriminate H|].
+    destruct (create_in vis m r ((a0 :: pos') ++ [insert_index vis (tkids t0)]) (new_node m t0 pr l ds)) as [n' p'|n' f] eqn:Ec; [|discriminate H].
+    inversion H; subst; clear H. apply grown_insert; [exact Ht|apply insert_index_le|].
+    apply (chain_result vis m r ((a0 :: pos') ++ [insert_index vis (tkids t0)]) (new_node m t0 pr l ds) n' p Gr eq_refl eq_refl);
+      [destruct pos'; discriminate|exact Ec].
+  - destruct (create_in vis m r (pos ++ [j]) k) as [k' p'|k' f] eqn:Ec; [|discriminate H]. inversion H; subst; clear H.
+    rewrite last_last.
+    assert (Fk : smatch m pr l ps k = true) by (apply (sel_member_true _ 0 (tkids t0) j); rewrite ES; left; reflexivity).
+    destruct (sel_update _ _ _ _ _ k ES Fk) as (i & Hj & Hn & _). cbn in Hj. subst j.
+    eapply grown_down; [exact Hn|]. eapply IH; eauto. eapply smatch_tag; eauto.
+Qed.
+
+(* ================================================================ foc level: minimal, and faults change nothing *)
+Lemma replace_at_same : forall q t t0, subtree t q = Some t0 -> replace_at t q t0 = t.
+Proof.
+  induction q as [|j q IH]; intros t t0 H; cbn in H |- *; [inversion H; reflexivity|].
+  destruct t as [i p kids]. destruct p; cbn in H; try (destruct j; discriminate H).
+  destruct (nth_error kids j) as [k|] eqn:E; [|discriminate H].
+  rewrite (update_nth_same (fun k0 => replace_at k0 q t0) kids j k E (IH k t0 H)). reflexivity.
+Qed.
+
+Definition steps_good (m : nsmap) (e : xpath_expr) : bool :=
+  match e with [LocationPath _ ss] => forallb (step_good m) ss && negb (null ss) | _ => false end.
+
+(* what the tree is afterwards: the old tree, or the old tree with the subtree at the start node grown by one chain *)
+Lemma foc_minimal vis root m ab ss q t0 t' p :
+  forallb (step_good m) ss = true -> subtree root q = Some t0 -> is_tag_t t0 = true ->
+  foc vis root m m [LocationPath ab ss] (0 :: q) = FocOk t' p ->
+  t' = root \/ (ab = false /\ exists t0', grown t0 t0' /\ t' = replace_at root q t0') \/ (ab = true /\ grown root t').
+Proof.
+  intros G Hs Ht. unfold foc. destruct (negb (locatable [LocationPath ab ss])); [discriminate|].
+  destruct (eval _ _ _ _) as [[|x [|y l]]|f]; try discriminate.
+  - destruct ab.
+    + destruct ss as [|s r]; [cbn; intro H; inversion H; left; reflexivity|].
+      cbn [forallb] in G. apply andb_prop in G as [Gs Gr].
+      destruct s as [a t ps]. destruct a; try discriminate Gs. destruct t as [pr l| | |]; try discriminate Gs.
+      cbn [create_in].
+      pose proof (good_step_single (docnode root) m pr l ps ([], docnode root) Gs) as E0. rewrite children_filter, sel_doc in E0.
+      rw_step E0. destruct (smatch m pr l ps root) eqn:Fr; cbn [map fst snd app]; [|discriminate].
+      destruct (create_in vis m r [0] root) as [k' p'|k' f] eqn:Ecr; [|discriminate]. intro H. inversion H; subst; clear H.
+      right. right. split; [reflexivity|]. cbn. eapply create_grown; eauto. eapply smatch_tag; eauto.
+    + rewrite Hs. cbn [opt_default].
+      destruct (create_in vis m ss (0 :: q) t0) as [t0' p'|t0' f] eqn:Ecr; [|discriminate]. intro H. inversion H; subst; clear H.
+      right. left. split; [reflexivity|]. exists t0'. split; [|reflexivity]. eapply create_grown; eauto.
+  - intro H. inversion H. left. reflexivity.
+Qed.
+
+(* every exception leaves the tree as it was *)
+Lemma foc_fault_unchanged vis root m ab ss q t0 t' f :
+  forallb (step_good m) ss = true -> subtree root q = Some t0 ->
+  foc vis root m m [LocationPath ab ss] (0 :: q) = FocFault t' f -> t' = root.
+Proof.
+  intros G Hs. unfold foc. destruct (negb (locatable [LocationPath ab ss])); [intro H; inversion H; reflexivity|].
+  destruct (eval _ _ _ _) as [[|x [|y l]]|f0]; try (intro H; inversion H; reflexivity).
+  destruct ab.
+  - destruct ss as [|s r]; [discriminate|].
+    cbn [forallb] in G. apply andb_prop in G as [Gs Gr].
+    destruct s as [a t ps]. destruct a; try discriminate Gs. destruct t as [pr l| | |]; try discriminate Gs.
+    cbn [create_in].
+    pose proof (good_step_single (docnode root) m pr l ps ([], docnode root) Gs) as E0. rewrite children_filter, sel_doc in E0.
+    rw_step E0. destruct (smatch m pr l ps root) eqn:Fr; cbn [map fst snd app]; [|intro H; inversion H; subst; reflexivity].
+    destruct (create_in vis m r [0] root) as [k' p'|k' f'] eqn:Ecr; [discriminate|]. intro H. inversion H; subst; clear H.
+    rewrite (create_unchanged vis m r [0] root k' f Gr Ecr). reflexivity.
+  - rewrite Hs. cbn [opt_default].
+    destruct (create_in vis m ss (0 :: q) t0) as [t0' p'|t0' f'] eqn:Ecr; [discriminate|]. intro H. inversion H; subst; clear H.
+    rewrite (create_unchanged vis m ss (0 :: q) t0 t0' f G Ecr). apply replace_at_same. exact Hs.
 Qed.
